@@ -942,19 +942,8 @@ func (rn *runner) genBase(r *vh.Rand) string {
 	if kind == 2 && strings.HasPrefix(fb, "rf:") && r.Chance(6) { // bounds the builder rejects
 		fb = []string{"rf:3.1.1.2.0.0.0", "rf:0.1.0.2.0.0.0", "rf:0.1.4.2.0.0.0", "rf:0.1.1.2.0.3.900", "rf:0.1.1.2.4.2.900"}[r.Intn(5)]
 	}
-	if strings.HasPrefix(fb, "qf:") && strings.Count(fb, "C") > 1 {
-		// QUICFrames.build panics (negative make / slice bounds, in the connection's run loop) when a datagram's
-		// CRYPTO slice is shorter than the layout's offsets: keep layouts with offsets to single-datagram flights
-		if chBase == "c146" {
-			chBase = "ff"
-		}
-		if pad > 300 {
-			pad = 300
-		}
-		if plans != "-" {
-			plans = []string{"0/1200", "0/1250", "0/0"}[r.Intn(3)]
-		}
-	}
+	// (QUICFrames layouts with offsets used to panic in the run loop when a datagram's CRYPTO share was
+	// shorter than the layout; since /repo 059c38c build() clamps, so they run on multi-datagram flights too)
 	// keep flights short: a CryptoLength that repeats (last plan entry; or the first one on the pass-through
 	// path, whose plan index never advances) cuts the ClientHello into est/c datagrams, and more than ~10
 	// datagrams at one virtual instant make the pacer spin under synctest's frozen clock
